@@ -65,7 +65,7 @@ CHECKS = {
          "Expected-tree semantics follow the parser's documented/tested behaviour for valid input.", "3/C19"),
  "C20": ("exploration", "verif-tagged accessor sampled after every NextInto + live-heap/TotalAlloc accounting around streaming reads and writes",
          "Slot counts against the measured overlap depth on every step; heap growth bounds on files several times larger than the bound; attachment streaming budgets.",
-         "Heap measurements taken while nothing else runs in the process; 24 MiB allowance for codec buffers.", "3/C20"),
+         "Heap measurements taken while nothing else runs in the process; 32 MiB allowance for codec buffers.", "3/C20"),
 }
 
 NOT_YET = {}
